@@ -1297,7 +1297,9 @@ namespace bloch::compiler {
             if (isTypeAhead()) {
                 std::unique_ptr<Type> targetType = parseType();
                 (void)expect(TokenType::RParen, "Expected ')' after type in cast expression");
-                std::unique_ptr<Expression> operand = parseUnary();
+                // A cast is a prefix operator like '-', '!' and '~': its operand may carry
+                // postfix forms, so '(float) f(x)' casts the call's result.
+                std::unique_ptr<Expression> operand = parsePrattExpression(kPrefixBindingPower);
                 std::unique_ptr<CastExpression> cast =
                     std::make_unique<CastExpression>(std::move(targetType), std::move(operand));
                 cast->line = lparen.line;
